@@ -38,6 +38,8 @@ def _step_iv(state, op, t=None):
         t = mk(state)
     E = ival.fentries(entries)
     viols = []
+    # exact rationals that no float represents may legitimately come back as the nearest float (the tier constructors convert to float)
+    exact = not any(isinstance(v, F) for v in list(op[1:3]) + [x for e in entries for x in e[:2]])
     if op[0] == "ins":
         _, a, b, mode, rp = op[:5]
         lab = op[5] if len(op) > 5 else "n"
@@ -64,9 +66,9 @@ def _step_iv(state, op, t=None):
         if st == "exc":
             viols.append(Viol("insert-raised:" + type(r).__name__, f"{tag} raised {r!r}"))
             return None, 1, "X", None, viols
-        msg = ival.compare_entries(ents(t), exp, True, "entries after insert") or \
-            ival.compare_num(t.minTimestamp, elo, True, "minTimestamp") or \
-            ival.compare_num(t.maxTimestamp, ehi, True, "maxTimestamp")
+        msg = ival.compare_entries(ents(t), exp, exact, "entries after insert") or \
+            ival.compare_num(t.minTimestamp, elo, exact, "minTimestamp") or \
+            ival.compare_num(t.maxTimestamp, ehi, exact, "maxTimestamp")
         if msg is None:
             if rp == "silence" and out:
                 msg = f"printed {out!r} in silence mode"
@@ -89,7 +91,7 @@ def _step_iv(state, op, t=None):
         if st == "exc":
             viols.append(Viol("delete-raised:" + type(r).__name__, f"{tag} raised {r!r}"))
             return None, 1, "X", None, viols
-        msg = ival.compare_entries(ents(t), exp, True, "entries after delete")
+        msg = ival.compare_entries(ents(t), exp, exact, "entries after delete")
         if msg is None and (t.minTimestamp, t.maxTimestamp) != (lo, hi):
             msg = f"span changed to ({t.minTimestamp},{t.maxTimestamp})"
         if msg:
@@ -335,6 +337,13 @@ def parts(tier):
                         lambda c: _check_live(c, _ops_iv(live_vals), _step_iv),
                         rule="every pair (op1, op2) of insertEntry / deleteEntry calls on ONE live interval tier from 3 seed tiers, list model in "
                              "lock step (hidden state in the tier object would make the second step disagree)", bounds={"sequence_length": 2}, chunk=2))
+    # timestamps of other numeric types (the constructor converts to float, insertEntry stores what it is given): exact rationals that no
+    # float represents, and ints
+    frac_vals = (0, F(4, 3), 2, F(7, 3), 3.0)
+    ps.append(InputPart("live-sequences-rational-timestamps", lambda: ((s0, op1) for s0 in live_iv[:2] for op1 in _ops_iv(frac_vals)(s0)),
+                        lambda c: _check_live(c, _ops_iv(frac_vals), _step_iv),
+                        rule="every pair (op1, op2) of insertEntry / deleteEntry calls on ONE live interval tier with timestamps given as fractions.Fraction "
+                             "(4/3, 7/3) and int next to float: the list model in lock step", bounds={"sequence_length": 2}, chunk=2))
     live_pt = [("P", "t", 0.0, 4.0, ()), ("P", "t", 0.0, 4.0, ((1.0, "a"), (3.0, "b")))]
     ps.append(InputPart("live-sequences-points", lambda: ((s0, op1) for s0 in live_pt for op1 in _ops_pt(pvals)(s0)),
                         lambda c: _check_live(c, _ops_pt(pvals), _step_pt),
